@@ -17,18 +17,18 @@ RULE = ("Seeded plans: critic family (DQN, Nature-DQN, DDQN, PER-DDQN, DDPG, TD3
         "Each plan is executed clean and faulted in the same process. corrupt_terminated: the complete trace (every logged statistic, "
         "every action the env received, final hashes of all modules and optimisers) must be bit-identical; permute: logged loss and q mean "
         "of that update agree to 1e-5*(1+|x|); the control fault must change the trace (reach probe). "
-        "Value plans (DQN, Nature-DQN, DDQN, PER-DDQN, DDPG, TD3, TD3+LAP, TD7, MR.Q): one simulated training run; at every sample_batch the "
+        "Value plans (DQN, Nature-DQN, DDQN, PER-DDQN, DDPG, TD3, TD3+LAP, SAC, TD7, MR.Q): one simulated training run; at every sample_batch the "
         "returned batch is copied and all networks are cloned; the statistics the routine logs for that update (q loss / weighted loss, q mean, "
         "mean |TD|, TD7 embedding loss and tracked value range, per-sample |TD| handed to lap_priority) must equal the reference "
         "y = r + (1-terminated)*gamma*bootstrap (max / double-Q selection / clipped double-Q minimum / TD7 value clipping with the reported range / "
-        "MR.Q n-step return with residual discount and reward scaling) evaluated with float64 forward passes through the clones; tolerance "
+        "MR.Q n-step return with residual discount and reward scaling / SAC entropy term with the action the routine drew, read from a probe on the target critic, and alpha as it was at that instant) evaluated with float64 forward passes through the clones; tolerance "
         "2e-5*(1+|x|) + 16*|float32 reference - float64 reference| + float32 rounding of the forward-pass magnitude. "
         "Distinct = distinct (routine, configuration, fault kind, fired?).")
 REAL = ["train_* routines", "all critic losses (dqn, nature_dqn, ddqn, ddqn_per, ddpg, td3, td3_lap, sac, td7_update_critic, mrq_loss, SALE loss)", "replay buffers (dynamic subclass adds the fault / records samples)",
         "networks (clones of the live modules give the reference its forward passes)"]
 STUB = ["environment (SimEnv)"]
 ASSUMPTIONS = ["value equality is decided on the states simulated histories reach (batches the seeded sampler returns, networks after earlier updates and target synchronisations), not for all inputs; "
-               "SAC (bootstrap draws an action with a key that is not observable), the MR.Q encoder loss value, gradients w.r.t. online parameters and batch size 1 are NOT decided",
+               "the MR.Q encoder loss value, gradients w.r.t. online parameters and batch size 1 are NOT decided",
                "replacement successors are finite stored observations, so 0*x stays 0",
                "TD7 and MR.Q representation losses legitimately read the successor and are excluded from the corrupt_terminated fault",
                "smoothed target actions (TD3 family with noise_clip > 0) are read from a probe on the supplied target critic; an update whose target action cannot be attributed is counted unchecked",
@@ -46,7 +46,7 @@ ADAPTERS = ["dqn", "nature_dqn", "ddqn", "ddqn_per", "ddpg", "td3", "td3_lap", "
 UNIFORM = ["dqn", "nature_dqn", "ddqn", "ddpg", "td3"]  # SAC draws positional noise inside the loss: order invariance holds only in distribution
 
 
-VALUE = ["dqn", "nature_dqn", "ddqn", "ddqn_per", "ddpg", "td3", "td3_lap", "td7", "mrq", "td7", "mrq"]
+VALUE = ["dqn", "nature_dqn", "ddqn", "ddqn_per", "ddpg", "td3", "td3_lap", "td7", "mrq", "sac", "td7", "mrq"]
 
 
 def make_plan(rng, tier, index):
@@ -100,7 +100,7 @@ def value_plan(rng, name):
     if name == "td3_lap":
         c["lap_min_priority"] = rng.choice([1.0, 1.0, 0.25, 2.0])
     plan["logger"] = True
-    plan["supply_targets"] = rng.random() < 0.85 or bool(c.get("noise_clip"))  # smoothed target actions are read from a probe on the supplied target critic
+    plan["supply_targets"] = rng.random() < 0.85 or bool(c.get("noise_clip")) or name == "sac"  # smoothed target actions are read from a probe on the supplied target critic
     plan["monitor"] = False
     plan["kind"] = "value"
     return plan
